@@ -91,19 +91,22 @@ CondTable ==
   /\ Cond(14, fl) = (fl.zf = 1 \/ fl.sf # fl.of) /\ Cond(15, fl) = (fl.zf = 0 /\ fl.sf = fl.of)
 
 (* one-operand DIV / IDIV of AX by an 8-bit register against integer division *)
+DvN == 256 * a + ((b * 37 + c) % 256)
+DvRegs == [i \in 1..16 |-> IF i = 1 THEN <<DvN, 0, 0, 0>> ELSE IF i = 4 THEN <<b, 0, 0, 0>> ELSE <<0, 0, 0, 0>>]
+DvState == [r |-> DvRegs, fl |-> [cf |-> 0, pf |-> 0, af |-> 0, zf |-> 0, sf |-> 0, of |-> 0, df |-> 0],
+            mem |-> [k \in 1..MEMN |-> 0]]
+DvNone == [k |-> "n", n |-> 0, h |-> 0]
+DvForm(m) == [mn |-> m, sz |-> 8, ssz |-> 0, o1 |-> [k |-> "r", n |-> 3, h |-> 0], o2 |-> DvNone, o3 |-> DvNone, cc |-> 0]
+DvU == SpecStep(DvState, DvForm("div"), 2, <<>>)
+DvI == SpecStep(DvState, DvForm("idiv"), 2, <<>>)
+DvSn == SInt(DvN, 16)
+DvSd == SInt(b, 8)
+IAbs(v) == IF v < 0 THEN -v ELSE v
+DvTq == IF DvSd = 0 THEN 0 ELSE IF (DvSn < 0) = (DvSd < 0) THEN IAbs(DvSn) \div IAbs(DvSd) ELSE -(IAbs(DvSn) \div IAbs(DvSd))
+DvTr == DvSn - DvTq * DvSd
 DivRel ==
-  LET r == [i \in 1..16 |-> IF i = 1 THEN <<256 * a + (b * 37 + c) % 256, 0, 0, 0>> ELSE IF i = 4 THEN <<b, 0, 0, 0>> ELSE <<0, 0, 0, 0>>]
-      s == [r |-> r, fl |-> [cf |-> 0, pf |-> 0, af |-> 0, zf |-> 0, sf |-> 0, of |-> 0, df |-> 0], mem |-> [k \in 1..MEMN |-> 0]]
-      f(mn) == [mn |-> mn, sz |-> 8, ssz |-> 0, o1 |-> [k |-> "r", n |-> 3, h |-> 0], o2 |-> [k |-> "n"], o3 |-> [k |-> "n"], cc |-> 0]
-      n == 256 * a + (b * 37 + c) % 256
-      U == SpecStep(s, f("div"), 2, <<>>)
-      I == SpecStep(s, f("idiv"), 2, <<>>)
-      sn == SInt(n, 16)  sd == SInt(b, 8)
-      tq == IF sd = 0 THEN 0 ELSE (IF (sn < 0) = (sd < 0) THEN (IF sn < 0 THEN (-sn) \div (-sd) ELSE sn \div sd)
-                                   ELSE -((IF sn < 0 THEN -sn ELSE sn) \div (IF sd < 0 THEN -sd ELSE sd)))
-      tr == sn - tq * sd
-  IN /\ (U.fault = "DE") = (b = 0 \/ n \div b > 255)
-     /\ (U.fault = "") => U.r[1][1] = (n \div b) + 256 * (n % b)
-     /\ (I.fault = "DE") = (sd = 0 \/ tq > 127 \/ tq < -128)
-     /\ (I.fault = "") => I.r[1][1] = (tq % 256) + 256 * (tr % 256)
+  /\ (DvU.fault = "DE") = (b = 0 \/ DvN \div b > 255)
+  /\ (DvU.fault = "") => DvU.r[1][1] = (DvN \div b) + 256 * (DvN % b)
+  /\ (DvI.fault = "DE") = (DvSd = 0 \/ DvTq > 127 \/ DvTq < -128)
+  /\ (DvI.fault = "") => DvI.r[1][1] = (DvTq % 256) + 256 * (DvTr % 256)
 =============================================================================
